@@ -423,4 +423,16 @@ def rule_fail(ctx):
     return r
 
 
-RULES = [rule_refresh, rule_keys, rule_assess, rule_fail]
+def rule_presurv(ctx):
+    """Shared with C18-SURV (move evaluator): the annealing stage caches the evaluator's
+    legs, cost and size in the tree and the trial records ``tree.contract_stats()`` from
+    them - the recorded costs are those of the returned tree only if the evaluator
+    uses the tree's survival rule."""
+    from .c18 import rule_surv
+
+    return C.reuse_rule(ctx, rule_surv, "C18-SURV", "C08-PRESURV",
+                        "figures cached by the annealing stage follow the tree's survival rule",
+                        lambda i: C.ANNEAL in i.construct, 3)
+
+
+RULES = [rule_refresh, rule_keys, rule_assess, rule_fail, rule_presurv]
